@@ -130,7 +130,7 @@ def make_case(rng, i):
                 steps.append({"op": "write", "kind": rng.choice(["model", "csv", "cs"]), "target": tgt,
                               "value_expr": value_expr(spec, tgt), "valid": True})
             elif r < 0.93:
-                steps.append({"op": "write", "kind": "csv", "target": None, "valid": False,
+                steps.append({"op": "write", "kind": rng.choice(["csv", "csv", "model_garbage"]), "target": None, "valid": False,
                               "value_expr": rng.choice(['"zz_unmapped"', "12345", "None", "('nope',)", "-99"])})
             else:
                 # a State object that does not belong to this machine, through the current_state setter
